@@ -399,11 +399,11 @@ func modelCheck(role string, e *expect, in []byte, o *obs) string {
 				return bad
 			}
 		case "one-of":
-			okc := false
-			for _, c := range e.Set {
-				okc = okc || (len(rest) == 1 && rest[0] == c)
-			}
-			if !okc {
+			// The statement asks for "an error status or a close, and no session": WHICH error status a
+			// deviation gets (405 for a wrong method, 409 for no common version, 406, 503 ...) is the
+			// implementation's choice, so any one status >= 400, or none, is accepted here. The set the
+			// current code uses is only recorded (evidence: status sequences seen).
+			if len(rest) > 1 || (len(rest) == 1 && rest[0] < 400) {
 				return bad
 			}
 		}
